@@ -678,6 +678,12 @@ fn multiaddr_matches_peer_id(addr: &Multiaddr, peer_id: &PeerId) -> bool {
     true
 }
 
+/// Verification hook: visibility shim for `multiaddr_matches_peer_id`.
+#[cfg(libp2p_verif)]
+pub(crate) fn verif_multiaddr_matches_peer_id(addr: &Multiaddr, peer_id: &PeerId) -> bool {
+    multiaddr_matches_peer_id(addr, peer_id)
+}
+
 struct PeerCache(Option<PeerAddresses>);
 
 impl PeerCache {
